@@ -72,6 +72,13 @@ def model(spec, order):
     def emit(name, phase):
         for dst in B[name].get('emit', {}).get(phase, ()):
             deliver(name, dst)
+        for dst in B[name].get('emit_ping', {}).get(phase, ()):
+            # an event that does not initialise its destination: the synchronous steps still
+            # have to run first
+            s = st[dst]
+            if 0 <= s['steps'] < 2:
+                init_sblock(dst, True)
+            log.append((dst, 'ping', name))
 
     def deliver(src, dst):
         s = st[dst]
@@ -261,9 +268,17 @@ def run_order(spec, order, ctx):
             blk = probes.make_probe(name, feats, hist, script, **kw)
             objs[name] = blk
             for phase, dsts in b.get('emit', {}).items():
-                pending_emit.append((blk, phase, dsts))
-        for blk, phase, dsts in pending_emit:
-            blk.x_emit[phase] = [(edzed.Event(d, 'init'), {}) for d in dsts]
+                pending_emit.append((blk, phase, dsts, 'init'))
+            for phase, dsts in b.get('emit_ping', {}).items():
+                pending_emit.append((blk, phase, dsts, 'ping'))
+        for blk, phase, dsts, etype in pending_emit:
+            blk.x_emit.setdefault(phase, []).extend((edzed.Event(d, etype), {}) for d in dsts)
+        # combinational blocks fed by constants only: nothing ever triggers their evaluation
+        # except the first evaluation of the whole circuit
+        if spec.get('konst'):
+            edzed.FuncBlock('konst1', func=lambda a, b: a * b).connect(6, edzed.Const(7))
+            edzed.And('konst2').connect(True, edzed.Const(1))
+            edzed.Not('konst3').connect('konst2')
         return objs
 
     async def main(loop):
@@ -291,6 +306,9 @@ def run_order(spec, order, ctx):
         res['t_wait'] = loop.time() - t0
         res['outs'] = {n: (None if blk.output is edzed.UNDEF else blk.output)
                        for n, blk in objs.items() if isinstance(blk, edzed.SBlock)}
+        res['undef_blocks'] = sorted(blk.name for blk in circuit.getblocks()
+                                     if blk.output is edzed.UNDEF)
+        res['nblocks'] = len(list(circuit.getblocks()))
         res['ready'] = circuit.is_ready()
         res['error_at_return'] = circuit.error
         res['simtask_done'] = simtask.done()
@@ -327,6 +345,8 @@ def observed_log(hist):
             out.append((e[3], e[4]))
         elif e[2] == 'event' and e[4] == 'init':
             out.append((e[3], 'event', e[5].get('source')))
+        elif e[2] == 'event' and e[4] == 'ping':
+            out.append((e[3], 'ping', e[5].get('source')))
     return out
 
 
@@ -347,7 +367,8 @@ def judge_order(spec, order, hist, res, ctx):
     success = res['wait_init'] == 'returned'
     # P4
     if success:
-        undef = [n for n, o in res['outs'].items() if o is None]
+        undef = [n for n, o in res['outs'].items() if o is None] + res['undef_blocks']
+        ctx.count('outputs_checked_after_wait_init', res['nblocks'])
         if undef:
             raise core.Violation('wait_init-returned-with-undef-output',
                                  f"{where}: blocks {undef} have no output")
@@ -493,13 +514,17 @@ def random_spec(rng, quick):
     rng.shuffle(rank)
     dests = set()
     emits = {nm: {} for nm in names}
+    pings = {nm: {} for nm in names}
     for i, src in enumerate(rank):
         for dst in rank[i + 1:]:
             # at most one sender per destination: the relative order of events from two
             # different blocks depends on the pass order, which the property does not fix
             if dst not in dests and rng.random() < 0.35:
                 phase = rng.choice(['restore', 'init_async', 'init_regular', 'init_from_value'])
-                emits[src].setdefault(phase, []).append(dst)
+                if rng.random() < 0.3:
+                    pings[src].setdefault(phase, []).append(dst)
+                else:
+                    emits[src].setdefault(phase, []).append(dst)
                 dests.add(dst)
     for nm in names:
         b = {'name': nm, 'regular': rng.choice(['ok', 'ok', 'set', 'set'])}
@@ -534,8 +559,17 @@ def random_spec(rng, quick):
                 em[phase] = ds
         if em:
             b['emit'] = em
+        pg = {}
+        for phase, ds in pings[nm].items():
+            have = {'restore': 'persist', 'init_async': 'ainit', 'init_from_value': 'initdef'}.get(phase)
+            if have is None or b.get(have):
+                pg[phase] = ds
+        if pg:
+            b['emit_ping'] = pg
         blocks.append(b)
     spec = {'blocks': blocks, 'stop_time': rng.random() < 0.8, 'lib': {}}
+    if rng.random() < 0.3:
+        spec['konst'] = True
     extra = []
     r = rng.random()
     if r < 0.15:
